@@ -1,7 +1,7 @@
 (* C02 — CometBFT's validator set always equals the chain's own bonded set and powers. *)
 From stdpp Require Import gmap.
 Require Import Model.Base Model.Validate Model.State Model.Staking Model.Slashing Model.Poa Model.App.
-Require Import proofs.Inv proofs.InvIdx proofs.InvPres proofs.InvMsgs proofs.InvHistory proofs.InvComet.
+Require Import proofs.Inv proofs.InvIdx proofs.InvPres proofs.InvMsgs proofs.InvHistory proofs.InvComet proofs.InvElig.
 
 (* after every block of every history that has not halted — any number of blocks, any in-block order of CreateValidator,
    SetPower safe/unsafe, RemoveValidator, RemovePending, UpdateStakingParams, unjail, any downtime pattern, empty blocks,
@@ -16,6 +16,40 @@ Theorem C02_comet_set_is_last_powers : forall g bs,
   forall k p, c_next (w_comet w) !! k = Some p <->
               exists id v, vals (stk (w_chain w)) !! id = Some v /\ v_cons v = k /\ last_pow (stk (w_chain w)) !! id = Some p.
 Proof. exact reachable_comet_rel. Qed.
+
+(* ... and which validators those are: whenever max_validators does not bind (the number of validators that are not
+   jailed and have a positive power — the positive entries of the power index — does not exceed it), CometBFT's set
+   after any block of any history consists of exactly the validators that are not jailed and hold tokens worth a
+   positive power, each at tokens / 10^6: nobody the admin did not put there, nobody missing, no stale power *)
+Theorem C02_comet_set_is_the_eligible_validators : forall g bs,
+  wf_genesis g ->
+  let w := run_world (init_world g) bs in
+  let s := stk (w_chain w) in
+  w_halted w = None ->
+  n_pos (pidx s) <= sp_max_validators (params s) ->
+  forall k p, c_next (w_comet w) !! k = Some p <->
+              exists id v, vals s !! id = Some v /\ v_cons v = k /\ v_jailed v = false /\ 0 < v_power v /\ p = v_power v.
+Proof.
+  intros g bs Hg w s Hh Hcap k p. pose proof (reachable_comet_rel g bs Hg Hh k p) as Hrel. pose proof (reachable_set g bs Hg Hh Hcap) as Hset.
+  subst w s. cbv zeta in Hrel. rewrite Hrel. clear Hrel.
+  split; intros (id & v & Hv & Hk & H); exists id, v; (split; [exact Hv|]); (split; [exact Hk|]).
+  - specialize (Hset id). rewrite H, Hv in Hset. unfold eligible in Hset.
+    destruct (v_jailed v); cbn in Hset; [discriminate|]. destruct (Z.ltb_spec 0 (v_power v)); inversion Hset; auto.
+  - destruct H as (Hj & Hp & ->). rewrite (Hset id). rewrite Hv. unfold eligible. rewrite Hj. cbn.
+    destruct (Z.ltb_spec 0 (v_power v)); [reflexivity|lia].
+Qed.
+
+(* the hypothesis counts what it should: positive index entries and eligible validators correspond one to one *)
+Theorem C02_positive_entries_are_the_eligible_validators : forall g bs,
+  wf_genesis g ->
+  let s := stk (w_chain (run_world (init_world g) bs)) in
+  List.NoDup (pidx s) /\
+  forall p id, (In (p, id) (pidx s) /\ 0 < p) <-> (exists v, vals s !! id = Some v /\ eligible v = true /\ p = v_power v).
+Proof.
+  intros g bs Hg s. destruct (reachable_CI g bs Hg) as [HS _]. split.
+  - apply (NoDup_map_inv snd). exact (si_unique _ HS).
+  - apply pos_keys_are_eligible; [exact HS|apply reachable_IC].
+Qed.
 
 (* whenever CometBFT accepts a block's updates, its new set is the old one with the updates applied one by one *)
 Theorem C02_comet_apply_is_sequential : forall vs upd nn,
